@@ -183,9 +183,10 @@ namespace c11
             if(is[i][j] >= mnum[fd]) { add("mesh: index set <" + std::to_string(cd) + "," + std::to_string(fd) + "> entry (" + std::to_string(i) + "," + std::to_string(j) + ") = " + std::to_string(is[i][j]) + " >= " + std::to_string(mnum[fd])); return; }
         });
       }
-      for(const auto& nm : node->get_mesh_part_names())
+      for(const auto& nm_ : node->get_mesh_part_names())
       {
-        const PartType* p = node->find_mesh_part(nm);
+        const std::string nm(nm_);
+        const PartType* p = node->find_mesh_part(nm_);
         if(p == nullptr) { add("meshpart '" + nm + "' listed but not found"); continue; }
         Index pnum[4] = {0, 0, 0, 0};
         for(int d = 0; d <= sdim; ++d) pnum[d] = p->get_num_entities(d);
@@ -205,11 +206,11 @@ namespace c11
         }
         for(const auto& a : p->get_mesh_attributes())
         {
-          if(a.second->get_num_values() != pnum[0]) add("meshpart '" + nm + "': attribute '" + a.first + "' value count mismatch");
-          if(a.second->get_dimension() <= 0 && pnum[0] > 0) add("meshpart '" + nm + "': attribute '" + a.first + "' dimension <= 0");
+          if(a.second->get_num_values() != pnum[0]) add("meshpart '" + nm + "': attribute '" + std::string(a.first) + "' value count mismatch");
+          if(a.second->get_dimension() <= 0 && pnum[0] > 0) add("meshpart '" + nm + "': attribute '" + std::string(a.first) + "' dimension <= 0");
         }
-        String cn = node->find_mesh_part_chart_name(nm);
-        if(!cn.empty() && (!atlas || atlas->find_mesh_chart(cn) == nullptr)) add("meshpart '" + nm + "': chart '" + cn + "' not in atlas");
+        String cn = node->find_mesh_part_chart_name(nm_);
+        if(!cn.empty() && (!atlas || atlas->find_mesh_chart(cn) == nullptr)) add("meshpart '" + nm + "': chart '" + std::string(cn) + "' not in atlas");
       }
       if(parts)
       {
@@ -219,7 +220,7 @@ namespace c11
           if(g.get_num_nodes_domain() != p.get_num_patches()) add("partition: patch count mismatch");
           for(Index i = 0; i < g.get_num_nodes_domain(); ++i)
             for(auto it = g.image_begin(i); it != g.image_end(i); ++it)
-              if(*it >= p.get_num_elements()) { add("partition '" + p.get_name() + "': element index " + std::to_string(*it) + " >= " + std::to_string(p.get_num_elements())); break; }
+              if(*it >= p.get_num_elements()) { add("partition '" + std::string(p.get_name()) + "': element index " + std::to_string(*it) + " >= " + std::to_string(p.get_num_elements())); break; }
         }
       }
       return bad;
